@@ -374,3 +374,28 @@ PLANS["C17"] = dict(
     assumptions=["segment lengths are integers under the distance function used (by construction of the step set / L1 metric)"],
     trusted_base=["TLC 2026.09.04", "CommunityModules Json/IOUtils", "harness lattice projection"],
 )
+
+# ---- C10 -------------------------------------------------------------------------------------------
+
+
+def run_c10(ctx):
+    ctx.mc("PlanarMeasureMC", "PlanarMeasureMC_%s.cfg" % ctx.tier, note="area sign/rotation/translation/closing laws, centroid covariance and convex-in-bound, distance zero iff on segment")
+    shards = ctx.gen("planar")
+    ctx.validate("PlanarMeasure_Trace", shards)
+
+
+def sig_c10(ev):
+    if ev.get("_alt"):
+        return "planar.CentroidArea:collection-without-2d-members-centroid-is-origin"
+    return sig_default(ev)
+
+
+PLANS["C10"] = dict(
+    run=run_c10, signature=sig_c10,
+    technique="TLA+ exact integer/rational definitions of shoelace area, moments/centroid, point-segment distance and bracketed length; TLC checks their laws on small rings and recomputes every recorded result of the real planar functions",
+    level_text="TLC checks on every ring of <=3 (quick) / <=4 (thorough) vertices of a 4x4 grid that the shoelace area negates under reversal and is invariant under rotation, translation and explicit closing, that the centroid is translation-covariant, rotation-invariant and inside the bound of a convex ring, and that the point-segment distance is zero exactly on the segment. For seeded integer geometries TLC recomputes: the doubled area of rings (with rotations, reversals, translations), polygons with holes of any winding, multipolygons and collections (top-dimensional members only); centroids as exact rationals (area-, length- and count-weighted); DistanceFromSegmentSquared; DistanceFrom / WithIndex as the minimum over all boundary segments of every kind incl. query points on the boundary; Length bracketed per segment by integer square roots.",
+    level_note="Bounds forced by TLC's 32-bit integers: |v| <= 12 for area/centroid, <= 8 for distances (the property's |v| <= 2^20 range and the general-position 1e-9 clause are not covered). Centroids are compared after rounding to 1/1000, squared distances to 1/10000, lengths to 1/100. Trusted: TLC, Json module, the roundings in the harness.",
+    rule="one event = one real planar call on an integer geometry; non-trivial = non-zero area (area events) / all other events; distinct = distinct event text",
+    assumptions=["2*area of an integer geometry is exact in float64 (checked per event)"],
+    trusted_base=["TLC 2026.09.04", "CommunityModules Json/IOUtils", "harness rounding"],
+)
